@@ -921,7 +921,7 @@ theorem rebuildA_answer (S : Schema) (h : Full15 S) :
     have : (users S.types).map (fun td => (td.name, td0 td)) = tmOf (users S.types) td0 := rfl
     rw [this, hp2]
     simp only [ok_bind, hd, List.nil_append]
-    simp only [tmOf, List.map_map, Function.comp]
+    simp only [tmOf, List.map_map]
     rfl
   · exact foldl_roots_badKind _ _ _
   · -- equivalence
